@@ -23,11 +23,14 @@ def tlc_family(chk, module, tier, *, cfg=None, simulate=None, depth=None, timeou
     return res
 
 
-def expand(raw_cases, prefix, layouts=LAYOUTS, stage="run"):
-    """One replay case per (behaviour, layout)."""
+def expand(raw_cases, prefix, layouts=LAYOUTS, stage="run", sound_only=False):
+    """One replay case per (behaviour, layout). Behaviours the specification marks
+    soundOnly (unspecified by the documentation) are used by C02 only."""
     out = []
     seen = set()
     for n, c in enumerate(raw_cases):
+        if bool(c.get("soundOnly")) != sound_only:
+            continue
         key = json.dumps(c, sort_keys=True)
         if key in seen:
             continue
